@@ -521,7 +521,7 @@ pub fn parts() -> Vec<Box<dyn PartDyn>> {
     vec![Box::new(Part::<Case> {
         name: "e2e",
         rule: "histories of up to 40 events on 1-3 channels: register / replace / drop a confirm listener, a return listener, the connection's blocked listener; publishes (confirmed ack or nack by the broker as soon as it has seen them, with or without a barrier between registration and publish); unsolicited acks/nacks with arbitrary tag and multiple flag; returns with bodies up to 3000 bytes; blocked(reason)/unblocked. FIFO barriers (a synchronous call on the same channel / an open_channel for the blocked listener) make listener lifetimes exact; oracle: every listener instance receives exactly the events sent for its channel during its lifetime, unchanged and in order; a replaced listener's receiver is disconnected; events with no or a dropped listener are discarded and every channel and the connection still work afterwards; non-trivial = a listener was replaced or dropped between events and events of >= 2 channels interleave; distinct by case hash",
-        cases: |t| t.pick(1000, 25_000),
+        cases: |t| t.pick(4000, 60_000),
         threads: 16,
         strategy: strat,
         exec,
